@@ -2,32 +2,21 @@
 
 ALL = ["C%02d" % i for i in range(1, 20)]
 
-CHECKS = {
-    "C07": dict(
-        engine="HeaderStore",
-        text="Exhaustive TLC exploration of specs/HeaderStore (two flat files at half-entry granularity, shared "
-             "index bucket, OS descriptor offset) over every history of appends (0..k headers), rollbacks (incl. "
-             "to and past genesis), reopen points and one (quick) or two (thorough) injected write/index errors at "
-             "every durable step; EVERY transition of that graph is replayed against the real headerfs stores "
-             "(real files, real bbolt, faults injected through the File/walletdb.DB interfaces) and the list-refinement, "
-             "reopen and failed-append operators of HeaderStoreProps.tla are evaluated by TLC on the observed traces.",
-        note="Bounded: <=5 ids, <=5 operations, <=2 faults. Trusts TLC, the Go projection of the read API to ids, and "
-             "that I/O errors arrive only through the File / walletdb.DB interfaces. Errors injected into rollbacks are "
-             "not judged (the property only speaks about failed appends).",
-        design="4 C07", technique="TLA+ spec + TLC exhaustive + spec-to-code replay of every transition + TLC-judged observed traces"),
-    "C08": dict(
-        engine="HeaderStore",
-        text="Same specification with a crash allowed at every point between and inside the durable steps of every "
-             "store call (file write torn after every half-entry count, after the file write, between the two steps "
-             "of a rollback, while idle), followed by recovery; every crash transition is replayed on the real stores "
-             "(the fault wrapper performs the torn write on the real file, then kills the call; descriptors are dropped "
-             "and the directory reopened) and RecoverOpens / RecoveredContentLegal / NoTornEntry / FilterNotAhead / "
-             "PostCrashRefinement are evaluated by TLC on what the reopened stores answer.",
-        note="Crash = process death with completed syscalls durable (no power-loss reordering); bbolt commits atomic. "
-             "Multi-store crash points (reorganisation, filter-header batch, import) are covered by the BlockManager / "
-             "Import families where claimed, not by this store-level check.",
-        design="4 C08", technique="TLA+ spec with crash actions + TLC exhaustive + crash-point replay on real files + TLC-judged observed traces"),
-}
+import importlib, pkgutil
+
+
+def _collect():
+    import vlib.families
+    out = {}
+    for m in sorted(pkgutil.iter_modules(vlib.families.__path__), key=lambda m: m.name):
+        mod = importlib.import_module("vlib.families." + m.name)
+        if not getattr(mod, "READY", False):
+            continue
+        out.update(getattr(mod, "MANIFEST", {}))
+    return out
+
+
+CHECKS = _collect()
 
 NOT_YET = "check not built yet in this round (specification planned in DESIGN.md section 4); not claimed"
 NOT_APPLICABLE = {
